@@ -10,9 +10,14 @@ Driver-side (offline, over the recorded results of related executions): sign rev
 linearity (alpha*x+beta*y), |alpha| scaling of the peaks, closed forms for constant / linearly varying acceleration,
 object-vs-array agreement, no exception on in-domain input; "twin objects" (two AccSignal objects fed from the same
 caller array, one of them corrected in place): the untouched one keeps its values bit-for-bit and both stay consistent
-under the object monitors.
+under the object monitors; "protocol pairs" (copy.copy / copy.deepcopy / pickle round trip of an AccSignal, a Cluster
+member or a whole Cluster in every cache state, then reads and mutators on BOTH objects in both orders): every read is
+judged by the object monitors against that object's own current values, an object on which nothing was done between two
+complete reads reports bit-for-bit the same, the peaks of alpha * record on one object are |alpha| times the peaks of the
+record on the other; f(A); f(B); f(A) at array and object level (third == first, bit for bit).
 """
 import copy
+import pickle
 import warnings
 import weakref
 
@@ -65,7 +70,26 @@ RULE = ('array cases = (record, container, dt, trap in {True,False}, call style)
         'objects built from the SAME float64 caller array (or from each other\'s values, at construction or via '
         'reset_values; n >= 64, non-zero record); all five quantities of both are read, 1-2 in-place style '
         'corrections are applied to ONE of them, then both are read again; the untouched object\'s values and the '
-        'series obtained from it earlier are compared bit-for-bit with their earlier state. distinct = digest of '
+        'series obtained from it earlier are compared bit-for-bit with their earlier state. '
+        'Round 3: records also "silent" (all +0.0 / all -0.0); every array case ends with a record of ANOTHER shape '
+        'followed by the first record object once more with both rules and calc_peak (array.repeat==first); object '
+        'histories also contain assignments through public attribute names (values, dt, npts, time, velocity, '
+        'displacement, pga/pgv/pgd, response_times, smooth_fa_freqs, smooth_freq_range, label; list / tuple / ndarray of '
+        '1, 2, 3, n//2, n, n+1 entries), operations the library refuses (add_series of another length, add_signal with '
+        'another dt / a non-signal, butter_pass with corners outside (0, Nyquist) / scalar / 3 entries, remove_poly(-1), '
+        'a rolling window shorter than one sample), "out and back" steps (record replaced by one with a nan / inf '
+        'sample, a 2-D, 0-d or one-sample record, read, then the former record again), A-B-A steps (record A, record B '
+        'of the same or another length, A again, optionally with an explicit rule; obj.repeat==first) and Butterworth '
+        'corners at 1e-4..9e-4 and 0.991..0.999 of the Nyquist frequency. protocol cases = an AccSignal (plain / '
+        'Cluster member / member of a copied Cluster; all record containers) brought into a cache state (cold, some '
+        'peaks, PGA only, one or both series, everything, response spectrum, Fourier / smoothed spectrum, Stockwell memo, '
+        'explicit trap=False generation, read-mutated-read) and then copied with copy.copy, copy.deepcopy or pickle '
+        '(protocols 2..5); 0-2 reads / complete reads of either object; for copy.copy first a mutator that gives one of '
+        'the two a NEW value buffer (reset_values with another record of any length, with alpha * the other object\'s '
+        'record, with its own record again, add_*, remove_average/poly, running_average, butter_pass, '
+        'remove_rolling_average(velocity), correct_me), checked with numpy.shares_memory before anything is judged; '
+        'then 2-6 steps on the original or the copy (single peaks on one then the other, reads, any mutator of the '
+        'object histories, spectra, feeds, complete reads). distinct = digest of '
         '(record bytes+dtype, container, dt, options/history); non-trivial = record not identically zero.')
 ASSUMPTIONS = ['finite real 1-D record of length >= 2, dt > 0 (dt = 0, negative dt, 0-d / 2-D records: probed, counted, '
                'not judged), trap a Python bool (0 / 1 / None / numpy.bool_: probed, not judged)',
@@ -95,6 +119,15 @@ ASSUMPTIONS = ['finite real 1-D record of length >= 2, dt > 0 (dt = 0, negative 
                'counted, not judged (inf is then the right answer); integrals that fall into the subnormal range are '
                'judged with the absolute floor of 4 smallest subnormals per rounding, magnified by |alpha| where a '
                'relation multiplies them',
+               'shallow copies (copy.copy) share the value buffer and the memo objects by definition: before one of the '
+               'two has received a new value buffer only reads are driven (both objects hold the same record with the '
+               'same rule, so a shared memo is right for both); an explicit regeneration with another rule or an '
+               'in-place correction on an un-separated shallow pair is not driven and not judged',
+               'records outside the quantifier reached inside a history (non-finite sample, 2-D, 0-d, one sample) are '
+               'counted, not judged; the reads after the object is back on a valid record are judged',
+               'bit-for-bit clauses between executions (array.repeat==first, obj.repeat==first, '
+               'obj.copy.idle-object-unchanged) compare two evaluations of the same function on the same record, dt and '
+               'rule in one process: the statement makes the series and peaks functions of (record, dt, rule) alone',
                'oracle vf/oracles/integrate.py (increment formulas, closed forms, reference integrals) is correct']
 MIN_EVALS = {
     'quick': {'array.no-exception': 41000, 'array.length': 41000, 'array.start==0': 41000, 'array.finite': 41000,
@@ -113,7 +146,9 @@ MIN_EVALS = {
               'obj.peaks==peaks of integral(current values)': 17000,
               'obj.peaks==max|series| after explicit trap switch': 1800,
               'obj==array': 5300, 'obj.no-exception': 44000, 'obj.derived.source-untouched': 750,
-              'obj.twin.untouched-object-still-consistent': 320, 'obj.twin.held-series-unchanged': 320},
+              'obj.twin.untouched-object-still-consistent': 320, 'obj.twin.held-series-unchanged': 320,
+              'array.repeat==first': 7000, 'obj.repeat==first': 250, 'obj.copy.idle-object-unchanged': 650,
+              'obj.copy.peaks-scale|alpha|': 150},
 }
 MIN_EVALS['thorough'] = {k: v * 20 for k, v in MIN_EVALS['quick'].items()}
 
@@ -586,7 +621,7 @@ OBJ_CONTAINERS = ['f64', 'f64', 'f32', 'f32', 'i64', 'i64', 'i32', 'i16', 'i8', 
                   'intlist', 'mixedlist', 'strided', 'reversed', 'readonly', 'narrow-full']
 EXTRA_CLASSES = ['neg-only', 'pos-only', 'const', 'const', 'linear', 'linear', 'linear', 'extreme-first', 'extreme-last',
                  'spike-dynamic-range', 'spike-dynamic-range', 'tail-heavy', 'single-changed', 'alt+offset',
-                 'plateau-start', 'plateau-end', 'ends-after-sign-change', 'offset-small-signal', 'scaled']
+                 'plateau-start', 'plateau-end', 'ends-after-sign-change', 'offset-small-signal', 'scaled', 'silent']
 INT_TOP = {'i64': 1e9, 'i32': 1e6, 'i16': 32000.0, 'i8': 127.0, 'u8': 255.0, 'u16': 65000.0, 'intlist': 1e6}
 INT_DTYPE = {'i64': np.int64, 'i32': np.int32, 'i16': np.int16, 'i8': np.int8, 'u8': np.uint8, 'u16': np.uint16,
              'intlist': np.int64}
@@ -638,6 +673,9 @@ def pick_record(rng, n):
             x = x - off if cls == 'neg-only' else x + off
             if rng.random() < 0.5:
                 x = np.round(x)
+        elif cls == 'silent':       # an all-zero record is a valid record (every series and peak is exactly zero)
+            x = np.full(n, 0.0 if rng.random() < 0.7 else -0.0)
+            lin = (0.0, 0.0)
         elif cls not in ('const', 'linear'):
             x = _shaped_record(rng, n, cls)
         elif cls == 'const':
@@ -818,7 +856,8 @@ def make_array_case(rng, n=None, kinds=None):
 MUTATORS = ['reset_values', 'add_constant', 'add_series', 'add_signal', 'remove_average', 'remove_poly',
             'running_average', 'butter_pass', 'rebase_displacement', 'set_zero_residual_velocity',
             'set_zero_residual_displacement', 'set_zero_residual_displacement_and_velocity',
-            'remove_rolling_average', 'correct_me', 'clear_cache', 'generate', 'generate', 'generate']
+            'remove_rolling_average', 'correct_me', 'clear_cache', 'generate', 'generate', 'generate',
+            'assign', 'assign', 'raise', 'outback', 'aba', 'aba']
 READS = ['pga', 'pgv', 'pgd', 'velocity', 'displacement']
 
 
@@ -869,6 +908,104 @@ def _feed(rng):
             CALL_STYLES[int(rng.integers(len(CALL_STYLES)))]]
 
 
+ASSIGN_ATTRS = ['values', 'values', 'values', 'dt', 'npts', 'response_times', 'response_times', 'label',
+                'smooth_fa_freqs', 'smooth_freq_range', 'velocity', 'displacement', 'pga', 'pgv', 'pgd', 'time']
+RAISERS = ['add_series_badlen', 'add_series_badlen', 'add_signal_baddt', 'add_signal_notsignal', 'butter_bad',
+           'remove_poly_bad', 'rolling_bad']
+
+
+def _mutator_op(rng, m, n, dt, nmax=1500):
+    """One history step for an AccSignal of n samples: (op, number of samples afterwards)."""
+    if m == 'reset_values':
+        n = pick_n(rng, nmax)
+        y, ycls, _ = pick_record(rng, n)
+        yk = OBJ_CONTAINERS[int(rng.integers(len(OBJ_CONTAINERS)))]
+        if _special(ycls):
+            yk, y = WIDE_KINDS[int(rng.integers(len(WIDE_KINDS)))], _fit_range(y, n, dt)
+        b, c, _ = to_container(rng, y, yk, None, dt)
+        op = [m, b, c]
+    elif m == 'add_constant':
+        op = [m, [1, -2, 0.5, float(rng.normal() * 10.0 ** rng.uniform(-2, 2))][int(rng.integers(4))]]
+    elif m in ('add_series', 'add_signal'):
+        y, ycls, _ = pick_record(rng, n)
+        yk = ['f64', 'list', 'i64', 'f32', 'readonly', 'reversed', 'mixedlist', 'i16'][int(rng.integers(8))]
+        if _special(ycls):
+            yk, y = 'f64', _fit_range(y, n, dt)
+        b, c, _ = to_container(rng, y, yk, None, dt)
+        op = [m, b, c]
+    elif m == 'remove_poly':
+        op = [m, int(rng.integers(0, min(3, n - 1) + 1))]
+    elif m == 'running_average':
+        op = [m, int(rng.integers(1, 10))]
+    elif m == 'butter_pass':
+        lo = float(rng.uniform(0.01, 0.2)) if rng.random() < 0.7 else None
+        hi = float(rng.uniform(0.3, 0.9)) if (lo is None or rng.random() < 0.7) else None
+        if rng.random() < 0.15:     # corners next to the ends of the admissible band (fractions of the Nyquist frequency)
+            if lo is not None:
+                lo = float(rng.choice([1e-4, 5e-4, 9e-4]))
+            if hi is not None:
+                hi = float(rng.choice([0.991, 0.995, 0.999]))
+        op = [m, lo, hi, int(rng.integers(1, 5)), [None, None, 'start', 'end', 'mid'][int(rng.integers(5))]]
+    elif m == 'set_zero_residual_velocity':
+        tz = None
+        if rng.random() < 0.3 and n > 4:
+            i0 = int(rng.integers(0, n - 2))
+            tz = [i0, None if rng.random() < 0.5 else int(rng.integers(i0 + 1, n))]
+        op = [m, tz]
+    elif m == 'remove_rolling_average':
+        op = [m, 'velocity' if rng.random() < 0.6 else 'acceleration', int(rng.integers(2, 10))]
+    elif m == 'generate':
+        op = [m, bool(rng.random() < 0.35), ['kw', 'pos', 'default'][int(rng.integers(3))]]
+    elif m == 'assign':
+        # assignment through a public attribute name after construction: the clean classes ignore it (values), refuse it
+        # (read-only properties) or take it over completely (response_times, label, ...); never half of it
+        attr = ASSIGN_ATTRS[int(rng.integers(len(ASSIGN_ATTRS)))]
+        form = ['list', 'tuple', 'array'][int(rng.integers(3))]
+        if attr in ('values', 'velocity', 'displacement', 'time'):
+            k = [1, 2, 3, n, n, max(2, n // 2), n + 1][int(rng.integers(7))]
+            y, _, _ = pick_record(rng, max(2, k))
+            y = np.asarray(y[:k], dtype=float)
+            y = y if np.all(np.abs(y) < 1e100) else np.sign(y)
+            op = [m, attr, form, y]
+        elif attr == 'response_times':
+            k = int(rng.integers(1, 4))
+            op = [m, attr, form, np.sort(rng.uniform(2.0, 40.0, size=k)) * float(dt)]
+        elif attr in ('smooth_fa_freqs', 'smooth_freq_range'):
+            k = 2 if attr == 'smooth_freq_range' else int(rng.integers(1, 4))
+            op = [m, attr, form, np.sort(rng.uniform(0.02, 0.45, size=k)) / float(dt)]
+        elif attr == 'label':
+            op = [m, attr, 'str', 'renamed']
+        else:       # dt, npts, pga, pgv, pgd: read-only
+            op = [m, attr, 'scalar', [0.5 * float(dt), 3, 1.0, 2.5][int(rng.integers(4))]]
+    elif m == 'raise':
+        # operations the clean code refuses: the object must be as it was (or completely updated) afterwards
+        kind = RAISERS[int(rng.integers(len(RAISERS)))]
+        if kind == 'add_series_badlen':
+            k = [n - 1, n + 1, 2 * n, max(2, n // 2), 0][int(rng.integers(5))]
+            k = k if k not in (1, n) else n + 2       # (one entry would broadcast: a legitimate constant)
+            op = [m, kind, rng.normal(size=k), ['array', 'list'][int(rng.integers(2))]]
+        elif kind == 'add_signal_baddt':
+            op = [m, kind, rng.normal(size=n), float(rng.choice([0.5, 2.0, 1.0 + 2.0 ** -30]))]
+        elif kind == 'butter_bad':
+            op = [m, kind, [[0.2, 1.5], [None, 1.0], [0.0, 0.5], [0.4, 0.3], 'scalar', [0.1, 0.2, 0.3]][int(rng.integers(6))]]
+        else:
+            op = [m, kind]
+    elif m == 'outback':
+        # the record leaves the quantifier (non-finite sample, 2-D, 0-d, one sample) and comes back to the same record
+        op = [m, ['nan', 'inf', '-inf', '2d', '0d', 'one-sample'][int(rng.integers(6))], int(rng.integers(n))]
+    elif m == 'aba':
+        # f(A); f(B); f(A): the object holds record A, is given B (same or another length), then A again
+        nb = n if rng.random() < 0.5 else pick_n(rng, nmax)
+        y, ycls, _ = pick_record(rng, nb)
+        if _special(ycls):
+            y = _fit_range(y, nb, dt)
+        op = [m, np.asarray(y, dtype=float), ['array', 'list', 'readonly'][int(rng.integers(3))],
+              [None, None, True, False][int(rng.integers(4))], bool(rng.random() < 0.5)]
+    else:
+        op = [m]
+    return op, n
+
+
 def make_object_scenario(rng, nmax=1500, n=None):
     n = pick_n(rng, nmax) if n is None else n
     x, cls, _ = pick_record(rng, n)
@@ -895,44 +1032,8 @@ def make_object_scenario(rng, nmax=1500, n=None):
         ops.append(['agree'])
     for _ in range(int(rng.integers(1, 6))):
         m = MUTATORS[int(rng.integers(len(MUTATORS)))]
-        if m == 'reset_values':
-            n = pick_n(rng, nmax)
-            rs_ok = n <= 2500
-            y, ycls, _ = pick_record(rng, n)
-            yk = OBJ_CONTAINERS[int(rng.integers(len(OBJ_CONTAINERS)))]
-            if _special(ycls):
-                yk, y = WIDE_KINDS[int(rng.integers(len(WIDE_KINDS)))], _fit_range(y, n, dt)
-            b, c, _ = to_container(rng, y, yk, None, dt)
-            op = [m, b, c]
-        elif m == 'add_constant':
-            op = [m, [1, -2, 0.5, float(rng.normal() * 10.0 ** rng.uniform(-2, 2))][int(rng.integers(4))]]
-        elif m in ('add_series', 'add_signal'):
-            y, ycls, _ = pick_record(rng, n)
-            yk = ['f64', 'list', 'i64', 'f32', 'readonly', 'reversed', 'mixedlist', 'i16'][int(rng.integers(8))]
-            if _special(ycls):
-                yk, y = 'f64', _fit_range(y, n, dt)
-            b, c, _ = to_container(rng, y, yk, None, dt)
-            op = [m, b, c]
-        elif m == 'remove_poly':
-            op = [m, int(rng.integers(0, min(3, n - 1) + 1))]
-        elif m == 'running_average':
-            op = [m, int(rng.integers(1, 10))]
-        elif m == 'butter_pass':
-            lo = float(rng.uniform(0.01, 0.2)) if rng.random() < 0.7 else None
-            hi = float(rng.uniform(0.3, 0.9)) if (lo is None or rng.random() < 0.7) else None
-            op = [m, lo, hi, int(rng.integers(1, 5)), [None, None, 'start', 'end', 'mid'][int(rng.integers(5))]]
-        elif m == 'set_zero_residual_velocity':
-            tz = None
-            if rng.random() < 0.3 and n > 4:
-                i0 = int(rng.integers(0, n - 2))
-                tz = [i0, None if rng.random() < 0.5 else int(rng.integers(i0 + 1, n))]
-            op = [m, tz]
-        elif m == 'remove_rolling_average':
-            op = [m, 'velocity' if rng.random() < 0.6 else 'acceleration', int(rng.integers(2, 10))]
-        elif m == 'generate':
-            op = [m, bool(rng.random() < 0.35), ['kw', 'pos', 'default'][int(rng.integers(3))]]
-        else:
-            op = [m]
+        op, n = _mutator_op(rng, m, n, dt, nmax)
+        rs_ok = n <= 2500
         ops.append(op)
         if rs_ok and rng.random() < 0.35:
             ops.append(_rs(rng))        # between the mutator and the first peak read that follows it
@@ -1011,7 +1112,8 @@ def run_array_case(eqsig, ctx, case):
     although several other records of the same shape went through the same functions in between, and the argument
     object handed to all those calls must still be bit-for-bit the stored record."""
     held = []
-    _array_case(eqsig, ctx, case, held)
+    first = {}
+    _array_case(eqsig, ctx, case, held, first)
     if held:
         X, base, results = held[0], held[1], held[2:]
         okk = all(np.asarray(r).dtype == c.dtype and np.shape(r) == c.shape
@@ -1023,9 +1125,36 @@ def run_array_case(eqsig, ctx, case):
             isinstance(X, (list, tuple)) or X.dtype == base.dtype)
         ctx.check(same, 'array.args-unchanged', lambda: dict(case),
                   'the record object passed to every call of the case no longer equals the stored record')
+        # f(A); f(B); f(A): results depend on the arguments only. Records of the same shape went through in between;
+        # now one of ANOTHER shape, then the first record (the same object) once more with both rules
+        fname = case['fn']
+        fn = getattr(eqsig.displacements, fname)
+        dt = _dt_from(case)
+        n = len(base)
+        m = n // 2 if n >= 4 else n + 1
+        B = np.resize(O.f64(case['other']), m) if len(case['other']) else np.ones(m)
+        for trap in (False, True):
+            _call_int(ctx, fn, fname, B, dt, trap, case)
+        _peak(ctx, eqsig, B, case)
+        for trap in (True, False):
+            if trap not in first:
+                continue
+            r = _call_int(ctx, fn, fname, X, dt, trap, case)
+            okk = (isinstance(r, tuple) and len(r) == 2 and all(
+                isinstance(q, np.ndarray) and q.dtype == c.dtype and q.shape == c.shape
+                and np.ascontiguousarray(q).tobytes() == c.tobytes() for q, c in zip(r, first[trap])))
+            ctx.check(okk, 'array.repeat==first', lambda: dict(case),
+                      '%s(record, dt, trap=%r) called again with the same record object after other records (same and '
+                      'other shapes) went through: the result differs from the first one (n=%d, dt=%r)'
+                      % (fname, trap, n, case['dt']))
+        if first.get('p_x') is not None:
+            p2 = _peak(ctx, eqsig, X, case, bool(case.get('deprecated_peak')))
+            ctx.check(p2 is not None and np.float64(p2).tobytes() == np.float64(first['p_x']).tobytes(),
+                      'array.repeat==first', lambda: dict(case),
+                      'calc_peak(record) called again: %r, first time %r' % (p2, first['p_x']))
 
 
-def _array_case(eqsig, ctx, case, held):
+def _array_case(eqsig, ctx, case, held, first):
     fname = case['fn']
     fn = getattr(eqsig.displacements, fname)
     base = np.asarray(case['acc'])
@@ -1047,6 +1176,8 @@ def _array_case(eqsig, ctx, case, held):
         r = res[trap]
         if r is not None and isinstance(r, tuple) and len(r) == 2:
             held.extend([(q, np.array(q, copy=True)) for q in r if isinstance(q, np.ndarray)])
+            if all(isinstance(q, np.ndarray) for q in r):
+                first[trap] = tuple(np.array(q, copy=True) for q in r)
     # the two public names of the integration must agree (one delegates to the other today)
     oname = ('velocity_and_displacement_from_acceleration' if fname == 'calc_velo_and_disp_from_accel_arr'
              else 'calc_velo_and_disp_from_accel_arr')
@@ -1064,6 +1195,7 @@ def _array_case(eqsig, ctx, case, held):
                   % (fname, oname, trap, ev, tv, ed, td))
     dep = bool(case.get('deprecated_peak'))
     p_x = _peak(ctx, eqsig, X, case, dep)
+    first['p_x'] = p_x
     # closed forms implied by the increment identity (trap=True only)
     lin = case.get('lin')
     if lin is not None and res[True] is not None and np.shape(res[True][0]) == (n,) and np.shape(res[True][1]) == (n,):
@@ -1195,6 +1327,8 @@ def _apply_mutator(eqsig, a, op):
     m = op[0]
     if m == 'reset_values':
         a.reset_values(materialise(op[1], op[2]))
+    elif m == 'reset_same':         # the same record once more, as a new array
+        a.reset_values(np.array(a.values, copy=True))
     elif m == 'add_constant':
         a.add_constant(op[1])
     elif m == 'add_series':
@@ -1247,8 +1381,192 @@ def _apply_mutator(eqsig, a, op):
             a.generate_displacement_and_velocity_series()
         else:
             a.generate_displacement_and_velocity_series(trap=bool(op[1]))
+    elif m == 'assign':
+        attr, form, val = op[1], op[2], op[3]
+        if form in ('list', 'tuple', 'array'):
+            val = np.array(val, dtype=float)
+            val = val.tolist() if form == 'list' else (tuple(val.tolist()) if form == 'tuple' else val)
+        setattr(a, attr, val)       # read-only properties raise AttributeError (counted by the caller)
+        if attr == 'response_times':
+            a.s_a                   # lazily generated with the assigned periods (not judged here)
+    elif m == 'raise':
+        kind = op[1]
+        if kind == 'add_series_badlen':
+            a.add_series(materialise(op[2], op[3]))
+        elif kind == 'add_signal_baddt':
+            a.add_signal(eqsig.AccSignal(np.resize(np.asarray(op[2], dtype=float), len(np.asarray(a.values))),
+                                         float(a.dt) * float(op[3])))
+        elif kind == 'add_signal_notsignal':
+            a.add_signal(np.asarray(a.values) * 0.5)
+        elif kind == 'butter_bad':
+            nyq = 0.5 / float(a.dt)
+            c = op[2]
+            a.butter_pass(0.3 * nyq if c == 'scalar' else tuple(None if q is None else q * nyq for q in c))
+        elif kind == 'remove_poly_bad':
+            a.remove_poly(-1)
+        else:
+            a.remove_rolling_average(mtype='velocity', freq_window=4.0 / float(a.dt))
+    elif m == 'outback':
+        keep = np.array(a.values, copy=True)
+        kind = op[1]
+        try:
+            if kind in ('nan', 'inf', '-inf'):
+                y = np.array(keep, dtype=np.result_type(keep.dtype, np.float32))
+                y[int(op[2]) % len(y)] = float(kind)
+                a.reset_values(y)
+            elif kind == '2d':
+                a.reset_values(np.vstack([keep, keep]))
+            elif kind == '0d':
+                a.reset_values(np.float64(1.5))
+            else:
+                a.reset_values(keep[:1])
+            for nm in READS:        # whatever these return or raise is outside the quantifier (the monitors say so)
+                try:
+                    getattr(a, nm)
+                except Exception:
+                    pass
+        except Exception:
+            pass
+        a.reset_values(keep)        # back inside: from here on every read is judged again
     else:
         raise ValueError('unknown op %r' % (m,))
+
+
+def _fingerprint(ctx, a, scen, who, order=None):
+    """Everything the property speaks about, read through the monitored properties: (record bytes, the three peaks,
+    both series) - None when the object is outside the quantifier or a read raised."""
+    if _domain(a.values, a.dt, True) is not None:
+        ctx.observe('out-of-domain(obj):not-fingerprinted')
+        return None
+    got = {}
+    for nm in (READS if order is None else order):
+        try:
+            got[nm] = getattr(a, nm)
+            ctx.ok('obj.no-exception')
+        except Exception as e:
+            ctx.exception('obj.no-exception', dict(scen, failed_at='%s read %s' % (who, nm)), e)
+            return None
+    v = np.asarray(a.values)
+    return ((str(v.dtype), v.shape, v.tobytes(), repr(a.dt), MODE.get(a, True))
+            + tuple(np.float64(got[nm]).tobytes() for nm in ('pga', 'pgv', 'pgd'))
+            + tuple((str(np.asarray(got[nm]).dtype), np.shape(got[nm]), np.ascontiguousarray(got[nm]).tobytes())
+                    for nm in ('velocity', 'displacement')))
+
+
+FP_NAMES = ['values.dtype', 'values.shape', 'values', 'dt', 'integration rule', 'pga', 'pgv', 'pgd', 'velocity',
+            'displacement']
+
+
+def _fp_diff(f1, f2):
+    return [FP_NAMES[i] for i in range(len(FP_NAMES)) if f1[i] != f2[i]]
+
+
+def _aba(eqsig, ctx, a, op, scen, k):
+    """f(A); f(B); f(A): what the object reports for record A the second time is bit-for-bit what it reported first."""
+    if _domain(a.values, a.dt, True) is not None:
+        return
+    A = np.array(a.values, copy=True)
+    trap = op[3]
+
+    def gen():
+        if trap is not None:
+            a.generate_displacement_and_velocity_series(trap=bool(trap))
+            CUR['after_switch'] = True
+    try:
+        a.reset_values(A)
+        gen()
+        first = _fingerprint(ctx, a, scen, 'aba first', READS)
+        a.reset_values(materialise(op[1], op[2]))
+        CUR['after_switch'] = False
+        if len(op) > 4 and op[4]:     # the record in between integrated with the explicit rule as well
+            gen()
+        _fingerprint(ctx, a, scen, 'aba other record', READS[::-1])
+        a.reset_values(np.array(A, copy=True))
+        CUR['after_switch'] = False
+        gen()
+        third = _fingerprint(ctx, a, scen, 'aba third', READS[::-1])
+    except Exception as e:
+        ctx.exception('obj.no-exception', dict(scen, failed_at='op %d aba' % k), e)
+        return
+    if first is None or third is None:
+        return
+    ctx.check(first == third, 'obj.repeat==first', lambda: dict(scen, failed_at='op %d aba' % k),
+              'the object held record A (n=%d), then another record (n=%d), then A again (trap=%r): %s differ from what '
+              'it reported for A the first time' % (len(A), len(op[1]), trap, _fp_diff(first, third)))
+
+
+def _do_op(eqsig, ctx, a, op, scen, k, who=''):
+    """One step of a history on the object a; returns 'stop' when the object left the quantifier at a read."""
+    if op[0] == 'read':
+        if _domain(a.values, a.dt, True) is not None:
+            ctx.observe('out-of-domain(obj):scenario-stopped')
+            return 'stop'
+        for nm in op[1]:
+            try:
+                getattr(a, nm)
+                ctx.ok('obj.no-exception')
+            except Exception as e:
+                ctx.exception('obj.no-exception', dict(scen, failed_at='%sop %d read %s' % (who, k, nm)), e)
+    elif op[0] == 'agree':
+        _agree(eqsig, ctx, a, scen, k)
+    elif op[0] == 'derive':
+        _run_derive(eqsig, ctx, a, op, scen, k)
+    elif op[0] == 'aba':
+        _aba(eqsig, ctx, a, op, scen, k)
+    elif op[0] == 'warm':
+        # other lazily filled memos of the object (none of them is judged here; they must not disturb the peak reads)
+        try:
+            if op[1] == 'fa':
+                a.fa_spectrum
+            elif op[1] == 'smooth':
+                a.smooth_fa_spectrum
+            elif len(np.asarray(a.values)) <= 160:
+                a.swtf = eqsig.stockwell.transform(np.asarray(a.values))     # what eqsig.stockwell memoises
+            ctx.observe('warm-step:%s' % op[1])
+        except Exception as e:
+            ctx.observe('warm-exception:%s:%s' % (op[1], type(e).__name__))
+    elif op[0] == 'rs':
+        # not judged itself (C03/C04 territory); it must not disturb what the peak reads return
+        try:
+            dtf = float(a.dt)
+            first = float(op[2]) * dtf
+            nz = first if first > 0 else 2.0 * dtf
+            rt = np.array([first] + [nz * (2.5 + 3.0 * j) for j in range(int(op[4]))])
+            kw = {} if op[3] is None else {'min_dt_ratio': op[3]}
+            if op[1].startswith('lazy'):
+                a.response_times = rt
+                getattr(a, op[1][5:])
+            elif op[1] == 'gen':
+                a.gen_response_spectrum(response_times=rt, **kw)
+            else:
+                a.generate_response_spectrum(rt, -1, *([op[3]] if op[3] is not None else []))
+            ctx.observe('response-spectrum-step')
+        except Exception as e:
+            ctx.observe('response-spectrum-exception:%s' % type(e).__name__)
+    elif op[0] == 'feed':
+        # the array the property hands out goes straight into the array functions (monitored: result,
+        # purity of the argument); the reads that follow re-judge the object against its values
+        if _domain(a.values, a.dt, True) is not None:
+            return None
+        try:
+            src = getattr(a, op[1])
+            _styled_call(eqsig.displacements.calc_velo_and_disp_from_accel_arr, src, a.dt, bool(op[2]),
+                         op[3])
+            eqsig.im.calc_peak(src)
+            ctx.ok('obj.no-exception')
+        except Exception as e:
+            if _domain(getattr(a, op[1]), a.dt, True) is None:
+                ctx.exception('obj.no-exception', dict(scen, failed_at='%sop %d feed %s' % (who, k, op[1])), e)
+            else:
+                ctx.observe('out-of-domain-exception')
+    else:
+        try:
+            _apply_mutator(eqsig, a, op)
+            CUR['after_switch'] = (op[0] == 'generate')
+        except Exception as e:      # a mutator that raised may have left the caches as they were
+            ctx.observe('mutator-exception:%s:%s' % (op[0] if op[0] not in ('raise', 'assign') else
+                                                      '%s.%s' % (op[0], op[1]), type(e).__name__))
+    return None
 
 
 def run_object_scenario(eqsig, ctx, scen):
@@ -1265,60 +1583,8 @@ def run_object_scenario(eqsig, ctx, scen):
                 ctx.exception('obj.no-exception', dict(scen, failed_at='AccSignal()'), e)
                 return
             for k, op in enumerate(scen['ops']):
-                if op[0] == 'read':
-                    if _domain(a.values, a.dt, True) is not None:
-                        ctx.observe('out-of-domain(obj):scenario-stopped')
-                        return
-                    for nm in op[1]:
-                        try:
-                            getattr(a, nm)
-                            ctx.ok('obj.no-exception')
-                        except Exception as e:
-                            ctx.exception('obj.no-exception', dict(scen, failed_at='op %d read %s' % (k, nm)), e)
-                elif op[0] == 'agree':
-                    _agree(eqsig, ctx, a, scen, k)
-                elif op[0] == 'derive':
-                    _run_derive(eqsig, ctx, a, op, scen, k)
-                elif op[0] == 'rs':
-                    # not judged itself (C03/C04 territory); it must not disturb what the peak reads return
-                    try:
-                        dtf = float(a.dt)
-                        first = float(op[2]) * dtf
-                        nz = first if first > 0 else 2.0 * dtf
-                        rt = np.array([first] + [nz * (2.5 + 3.0 * j) for j in range(int(op[4]))])
-                        kw = {} if op[3] is None else {'min_dt_ratio': op[3]}
-                        if op[1].startswith('lazy'):
-                            a.response_times = rt
-                            getattr(a, op[1][5:])
-                        elif op[1] == 'gen':
-                            a.gen_response_spectrum(response_times=rt, **kw)
-                        else:
-                            a.generate_response_spectrum(rt, -1, *([op[3]] if op[3] is not None else []))
-                        ctx.observe('response-spectrum-step')
-                    except Exception as e:
-                        ctx.observe('response-spectrum-exception:%s' % type(e).__name__)
-                elif op[0] == 'feed':
-                    # the array the property hands out goes straight into the array functions (monitored: result,
-                    # purity of the argument); the reads that follow re-judge the object against its values
-                    if _domain(a.values, a.dt, True) is not None:
-                        continue
-                    try:
-                        src = getattr(a, op[1])
-                        _styled_call(eqsig.displacements.calc_velo_and_disp_from_accel_arr, src, a.dt, bool(op[2]),
-                                     op[3])
-                        eqsig.im.calc_peak(src)
-                        ctx.ok('obj.no-exception')
-                    except Exception as e:
-                        if _domain(getattr(a, op[1]), a.dt, True) is None:
-                            ctx.exception('obj.no-exception', dict(scen, failed_at='op %d feed %s' % (k, op[1])), e)
-                        else:
-                            ctx.observe('out-of-domain-exception')
-                else:
-                    try:
-                        _apply_mutator(eqsig, a, op)
-                        CUR['after_switch'] = (op[0] == 'generate')
-                    except Exception as e:      # a mutator that raised may have left the caches as they were
-                        ctx.observe('mutator-exception:%s:%s' % (op[0], type(e).__name__))
+                if _do_op(eqsig, ctx, a, op, scen, k) == 'stop':
+                    return
     finally:
         CUR['scenario'] = None
         CUR['after_switch'] = False
@@ -1441,6 +1707,263 @@ def run_twin_scenario(eqsig, ctx, scen):
             _read_all(ctx, cor, scen['reads0'], scen, 'cor')
             _agree(eqsig, ctx, raw, scen, -1)
             _agree(eqsig, ctx, cor, scen, -2)
+    finally:
+        CUR['scenario'] = None
+        CUR['after_switch'] = False
+
+
+PROTO_HOW = ['copy', 'copy', 'copy', 'copy', 'deepcopy', 'deepcopy', 'pickle', 'pickle']
+PROTO_SOURCE = ['plain', 'plain', 'plain', 'plain', 'cluster-member', 'cluster-copy']
+PROTO_STATE = ['cold', 'cold', 'peaks', 'peaks', 'pga', 'series', 'all', 'all', 'rs', 'all+rs', 'fa', 'smooth',
+               'stockwell', 'rect', 'rect', 'mutated']
+# mutators that give the object a NEW value buffer (shallow copies share the buffer by definition: only these may come
+# first after copy.copy)
+REBINDERS = ['reset_values', 'reset_values', 'reset_values', 'reset_scaled', 'reset_scaled', 'reset_scaled',
+             'reset_same', 'add_constant', 'add_constant', 'add_series', 'add_signal', 'remove_average', 'remove_poly',
+             'running_average', 'butter_pass', 'remove_rolling_average', 'correct_me']
+PROTO_LATER = MUTATORS + ['reset_scaled', 'reset_scaled', 'reset_same']
+
+
+def _proto_mutation(rng, m, n, dt, nmax, rebinding=False):
+    if m == 'reset_scaled':
+        r = rng.random()
+        alpha = (-3.0 if r < 0.2 else float(rng.choice([-1.0, 1.0]) * 2.0 ** int(rng.integers(-3, 6))) if r < 0.5 else
+                 float(rng.choice([-1.0, 1.0]) * 10.0 ** rng.uniform(-2, 2)))
+        return [m, alpha, bool(rng.random() < 0.5)], None
+    if m == 'reset_same':
+        return [m], n
+    op, n = _mutator_op(rng, m, n, dt, nmax)
+    if rebinding and m == 'remove_rolling_average':
+        op[1] = 'velocity'          # (mtype='acceleration' subtracts inside the shared buffer)
+    return op, n
+
+
+def make_proto_scenario(rng, nmax=1200):
+    """copy.copy / copy.deepcopy / pickle round trip of an AccSignal (plain or Cluster member; the whole Cluster) in
+    some cache state, then reads and mutators on the copy AND on the original in both orders."""
+    n = pick_n(rng, nmax)
+    x, cls, _ = pick_record(rng, n)
+    kind = OBJ_CONTAINERS[int(rng.integers(len(OBJ_CONTAINERS)))]
+    dt = pick_dt(rng)
+    if _special(cls):
+        kind = WIDE_KINDS[int(rng.integers(len(WIDE_KINDS)))]
+        x = _fit_range(x, n, dt)
+    base, cont, _ = to_container(rng, x, kind, None, dt)
+    how = PROTO_HOW[int(rng.integers(len(PROTO_HOW)))]
+    source = PROTO_SOURCE[int(rng.integers(len(PROTO_SOURCE)))]
+    if source == 'cluster-copy' and how == 'copy':
+        how = 'deepcopy'        # (a shallow copy of a Cluster holds the very same member objects)
+    state = PROTO_STATE[int(rng.integers(len(PROTO_STATE)))]
+    peaks = ['pga', 'pgv', 'pgd']
+    rng.shuffle(peaks)
+    warm = []
+    if state == 'peaks':
+        warm = [['read', peaks[:int(rng.integers(1, 4))]]]
+    elif state == 'pga':
+        warm = [['read', ['pga']]]
+    elif state == 'series':
+        warm = [['read', [['velocity'], ['displacement'], ['displacement', 'velocity']][int(rng.integers(3))]]]
+    elif state == 'all':
+        warm = [['read', _reads(rng, full=True)]]
+    elif state == 'rs':
+        warm = [_rs(rng)]
+    elif state == 'all+rs':
+        warm = [['read', _reads(rng, full=True)], _rs(rng)]
+        if rng.random() < 0.5:
+            warm.reverse()
+    elif state in ('fa', 'smooth', 'stockwell'):
+        warm = [['warm', state]] + ([['read', _reads(rng)]] if rng.random() < 0.5 else [])
+    elif state == 'rect':
+        warm = [['read', _reads(rng)]] if rng.random() < 0.4 else []
+        warm.append(['generate', False, ['kw', 'pos'][int(rng.integers(2))]])
+        if rng.random() < 0.6:
+            warm.append(['read', _reads(rng)])
+    elif state == 'mutated':
+        m = MUTATORS[int(rng.integers(len(MUTATORS)))]
+        op, n = _mutator_op(rng, m, n, dt, nmax)
+        warm = [['read', _reads(rng, full=True)], op] + ([['read', _reads(rng)]] if rng.random() < 0.7 else [])
+    steps = []
+    for _ in range(int(rng.integers(0, 3))):        # before anything is changed: both objects hold the same record
+        steps.append([int(rng.integers(2)), ['read', _reads(rng)]] if rng.random() < 0.7 else
+                     [0, ['check', [[0, 1], [1, 0]][int(rng.integers(2))]]])
+    ns = [n, n]
+    who = int(rng.integers(2))
+    if how != 'copy' and rng.random() < 0.35:
+        # deep copies are independent from the start: an explicit regeneration on one of them, then the same peaks on both
+        pk = [['pgv', 'pgd'], ['pgd', 'pgv'], ['pgv'], ['pgd', 'pga']][int(rng.integers(4))]
+        steps.append([who, ['generate', bool(rng.random() < 0.3), ['kw', 'pos', 'default'][int(rng.integers(3))]]])
+        steps.append([who, ['read', list(pk)]])
+        steps.append([1 - who, ['read', list(pk)]])
+    if how == 'copy' or rng.random() < 0.6:
+        op, nn = _proto_mutation(rng, REBINDERS[int(rng.integers(len(REBINDERS)))], ns[who], dt, nmax, rebinding=True)
+        ns[who] = ns[1 - who] if nn is None else nn
+        steps.append([who, op])
+    for _ in range(int(rng.integers(2, 7))):
+        r = rng.random()
+        w = int(rng.integers(2)) if rng.random() < 0.7 else 1 - who      # (often: the object that was NOT changed last)
+        if r < 0.55:
+            # a single peak on one object, then on the other, is the shortest way to see a memo shared by the two
+            rd = _reads(rng) if rng.random() < 0.6 else [peaks[int(rng.integers(3))]]
+            steps.append([w, ['read', rd]])
+            if rng.random() < 0.5:
+                steps.append([1 - w, ['read', list(rd) if rng.random() < 0.5 else _reads(rng)]])
+        elif r < 0.80:
+            op, nn = _proto_mutation(rng, PROTO_LATER[int(rng.integers(len(PROTO_LATER)))], ns[w], dt, nmax)
+            ns[w] = ns[1 - w] if nn is None else nn
+            steps.append([w, op])
+            who = w
+        elif r < 0.88:
+            steps.append([w, _rs(rng)])
+        elif r < 0.92:
+            steps.append([w, _feed(rng)])
+        else:
+            steps.append([0, ['check', [[0, 1], [1, 0]][int(rng.integers(2))]]])
+    steps.append([0, ['check', [[0, 1], [1, 0]][int(rng.integers(2))]]])
+    return {'kind': 'proto', 'acc': base, 'container': cont, 'ckind': kind, 'cls': cls, 'dt': dt, 'dt_kind': _dt_kind(dt),
+            'how': how, 'source': source, 'state': state, 'protocol': int(rng.integers(2, pickle.HIGHEST_PROTOCOL + 1)),
+            'other': rng.normal(size=16), 'warm': warm, 'steps': steps}
+
+
+NON_MUTATING = ('read', 'rs', 'warm', 'feed', 'agree', 'check')
+
+
+def _three_peaks(ctx, a, scen, who):
+    out = []
+    for nm in ('pga', 'pgv', 'pgd'):
+        try:
+            out.append(float(getattr(a, nm)))
+            ctx.ok('obj.no-exception')
+        except Exception as e:
+            ctx.exception('obj.no-exception', dict(scen, failed_at='%s read %s' % (who, nm)), e)
+            return None
+    return out
+
+
+def run_proto_scenario(eqsig, ctx, scen):
+    """Two objects related by a Python object protocol. Every read is judged by the object monitors against the values
+    THAT object holds at that moment; the driver adds: an object on which nothing was done between two complete reads
+    reports bit-for-bit the same (whatever was done to the other one), and the peaks of alpha * record are |alpha|
+    times the peaks of the record across the two objects."""
+    CUR['scenario'] = scen
+    CUR['after_switch'] = False
+    try:
+        X = materialise(scen['acc'], scen['container'])
+        dt = _dt_from(scen)
+        how = scen['how']
+        with warnings.catch_warnings():
+            warnings.simplefilter('ignore')
+            try:
+                cluster = None
+                if scen['source'] == 'plain':
+                    a = eqsig.AccSignal(X, dt)
+                else:
+                    comp = np.resize(np.asarray(scen['other'], dtype=float), len(scen['acc']))
+                    cluster = eqsig.Cluster([X, comp], dt, stypes='acc')
+                    a = cluster.signal_by_index(0)
+            except Exception as e:
+                ctx.exception('obj.no-exception', dict(scen, failed_at='construction'), e)
+                return
+            for k, op in enumerate(scen['warm']):
+                if _do_op(eqsig, ctx, a, op, scen, k, 'warm ') == 'stop':
+                    return
+            try:
+                if scen['source'] == 'cluster-copy':
+                    c2 = (copy.deepcopy(cluster) if how == 'deepcopy' else
+                          pickle.loads(pickle.dumps(cluster, protocol=int(scen['protocol']))))
+                    b = c2.signal_by_index(0)
+                elif how == 'copy':
+                    b = copy.copy(a)
+                elif how == 'deepcopy':
+                    b = copy.deepcopy(a)
+                else:
+                    b = pickle.loads(pickle.dumps(a, protocol=int(scen['protocol'])))
+            except Exception as e:
+                ctx.exception('obj.no-exception', dict(scen, failed_at='%s of the object' % how), e)
+                return
+            if not isinstance(b, eqsig.AccSignal) or b is a:
+                ctx.observe('proto:not-a-new-AccSignal:%s' % how)
+                return
+            if a in MODE:
+                MODE[b] = MODE[a]       # whatever series the copy carries were made with the same rule
+            ctx.observe('proto:%s:%s:%s' % (how, scen['source'], scen['state']))
+            objs = [a, b]
+            names = ['original', 'copy']
+            fp = [None, None]
+            shared = how == 'copy'      # shallow copies share the value buffer until one of them gets a new record
+            for k, (who, op) in enumerate(scen['steps']):
+                w, o = objs[who], objs[1 - who]
+                if op[0] == 'check':
+                    for i in op[1]:
+                        f = _fingerprint(ctx, objs[i], scen, names[i], READS if (k + i) % 2 else READS[::-1])
+                        if f is not None and fp[i] is not None:
+                            ctx.check(f == fp[i], 'obj.copy.idle-object-unchanged',
+                                      lambda: dict(scen, failed_at='step %d check of the %s' % (k, names[i])),
+                                      '%s (%s, source %s in state %r): nothing was done to the %s since its last '
+                                      'complete read, yet its %s changed (steps in between: %s)'
+                                      % (how, names[i], scen['source'], scen['state'], names[i], _fp_diff(fp[i], f),
+                                         [(names[q], p[0]) for q, p in scen['steps'][:k]][-6:]))
+                        fp[i] = f
+                    continue
+                if op[0] == 'reset_scaled':
+                    if _domain(o.values, o.dt, True) is not None:
+                        continue
+                    alpha = float(op[1])
+                    try:
+                        w.reset_values(alpha * np.asarray(o.values))
+                    except Exception as e:
+                        ctx.exception('obj.no-exception', dict(scen, failed_at='step %d reset_values(alpha * record)' % k), e)
+                        return
+                    fp[who] = None
+                    CUR['after_switch'] = False
+                elif op[0] == 'raise':
+                    v0 = np.asarray(w.values)
+                    before = (v0.dtype, v0.shape, v0.tobytes())
+                    _do_op(eqsig, ctx, w, op, scen, k, names[who] + ' ')
+                    v1 = np.asarray(w.values)
+                    if (v1.dtype, v1.shape, v1.tobytes()) != before:
+                        fp[who] = None      # (completely updated is admissible too: the monitors judge the new state)
+                else:
+                    if _do_op(eqsig, ctx, w, op, scen, k, names[who] + ' ') == 'stop':
+                        return
+                    if op[0] not in NON_MUTATING:
+                        fp[who] = None
+                if shared and op[0] not in NON_MUTATING:
+                    if np.shares_memory(np.asarray(a.values), np.asarray(b.values)):
+                        # the mutator raised before it got to the new record: give the object its record as a new array
+                        w.reset_values(np.array(w.values, copy=True))
+                        fp[who] = None
+                    if np.shares_memory(np.asarray(a.values), np.asarray(b.values)):
+                        ctx.observe('proto:values-still-shared-after-rebinding')
+                        return
+                    shared = False
+                if op[0] == 'reset_scaled':
+                    if _domain(w.values, w.dt, True) is not None or _domain(o.values, o.dt, True) is not None:
+                        ctx.observe('out-of-domain(obj):scaled-copy')
+                        continue
+                    first, second = (w, o) if op[2] else (o, w)
+                    p1 = _three_peaks(ctx, first, scen, 'scaled pair')
+                    p2 = _three_peaks(ctx, second, scen, 'scaled pair')
+                    if p1 is None or p2 is None or MODE.get(w, True) is not True or MODE.get(o, True) is not True:
+                        continue
+                    q, pk = (p1, p2) if op[2] else (p2, p1)       # q: peaks of alpha * record, pk: peaks of the record
+                    f = abs(alpha)
+                    n = len(np.asarray(o.values))
+                    eps = O.eps_of(np.asarray(o.values), np.asarray(w.values))
+                    tv, td = _rel_tols(eps, n, o.dt, 2 * f * pk[1], 2 * f * pk[0], 2 * f * pk[2])
+                    tv += f * O.underflow_floor(eps, n)
+                    td += f * O.underflow_floor(eps, n)
+                    okp = (abs(q[0] - f * pk[0]) <= 4 * eps * f * pk[0] + O.underflow_floor(eps)
+                           and abs(q[1] - f * pk[1]) <= tv and abs(q[2] - f * pk[2]) <= td)
+                    ctx.check(okp, 'obj.copy.peaks-scale|alpha|',
+                              lambda: dict(scen, failed_at='step %d peaks of the scaled %s' % (k, names[who])),
+                              '%s: the %s was given %r * (record of the %s); its PGA %r PGV %r PGD %r vs |alpha| * peaks '
+                              'of the %s: %r %r %r (allowed dv %.3g dd %.3g; read first: the %s)'
+                              % (how, names[who], alpha, names[1 - who], q[0], q[1], q[2], names[1 - who], f * pk[0],
+                                 f * pk[1], f * pk[2], tv, td, names[who] if op[2] else names[1 - who]))
+            if shared:
+                return      # nothing was changed: both still look at one buffer, nothing more to compare
+            _agree(eqsig, ctx, a, scen, -1)
+            _agree(eqsig, ctx, b, scen, -2)
     finally:
         CUR['scenario'] = None
         CUR['after_switch'] = False
@@ -1605,6 +2128,18 @@ def _fixed_cases():
                     'ops': [['rs', how, first, ratio, 3], ['read', ['pga', 'pgv', 'pgd']], ['agree'],
                             ['add_constant', 0.25], ['rs', how, first, ratio, 2], ['read', ['pgd', 'pga', 'pgv']],
                             ['agree']]})
+    # a cheap clone that gets its own record (alpha = -3), peaks of the clone read first / of the original read first
+    for how, state, warm in (('copy', 'cold', []), ('copy', 'peaks', [['read', ['pgd', 'pga', 'pgv']]]),
+                             ('deepcopy', 'all', [['read', list(READS)]]), ('pickle', 'rect', [['generate', False, 'kw']])):
+        for order in (True, False):
+            out.append({'kind': 'proto', 'acc': np.sin(t / 4.0) * np.hanning(80), 'container': 'array', 'ckind': 'fixed',
+                        'cls': 'fixed', 'dt': 0.01, 'dt_kind': 'float', 'how': how, 'source': 'plain', 'state': state,
+                        'protocol': 4, 'other': np.cos(t[:16]), 'warm': warm,
+                        'steps': [[1 if order else 0, ['reset_scaled', -3.0, order]],
+                                  [0, ['check', [0, 1] if order else [1, 0]]],
+                                  [0 if order else 1, ['add_constant', 0.5]],
+                                  [0 if order else 1, ['read', ['pga']]], [1 if order else 0, ['read', ['pga', 'pgv']]],
+                                  [0, ['check', [1, 0]]]]})
     out.append({'kind': 'twin', 'acc': np.sin(t / 5.0) + 0.25, 'container': 'array', 'ckind': 'fixed', 'cls': 'fixed',
                 'dt': 0.01, 'dt_kind': 'float', 'link': 'same-caller-array', 'other': np.cos(t / 3.0),
                 'ops': [['rebase_displacement']], 'reads0': list(READS), 'reads1': list(READS[::-1])})
@@ -1619,6 +2154,13 @@ def _register(ctx, case):
         ctx.case(dig, nontrivial=nontriv, cls='array-%s-%s' % (case['ckind'], case['cls']),
                  sample={'fn': case['fn'], 'n': len(base), 'class': case['cls'], 'container': case['ckind'],
                          'dt': case['dt'], 'head': base[:8]})
+    elif case['kind'] == 'proto':
+        dig = core.digest(base, case['container'], case['dt'], case['dt_kind'], case['how'], case['source'],
+                          case['protocol'], case['warm'], case['steps'])
+        ctx.case(dig, nontrivial=nontriv, cls='proto-%s-%s-%s' % (case['how'], case['source'], case['state']),
+                 sample={'n': len(base), 'class': case['cls'], 'container': case['ckind'], 'dt': case['dt'],
+                         'how': case['how'], 'source': case['source'], 'state': case['state'],
+                         'steps': ['%s:%s' % ('oc'[w], o[0]) for w, o in case['steps']]})
     elif case['kind'] == 'twin':
         dig = core.digest(base, case['link'], case['dt'], case['dt_kind'], case['ops'], case['other'])
         ctx.case(dig, nontrivial=nontriv, cls='twin-%s' % case['link'],
@@ -1642,8 +2184,8 @@ def run_shard(ctx):
         if i % ctx.nshards != ctx.shard:
             continue
         _register(ctx, case)
-        {'arraycase': run_array_case, 'object': run_object_scenario, 'twin': run_twin_scenario}[case['kind']](
-            eqsig, ctx, case)
+        {'arraycase': run_array_case, 'object': run_object_scenario, 'twin': run_twin_scenario,
+         'proto': run_proto_scenario}[case['kind']](eqsig, ctx, case)
     # a few long records past 2**16 (cheap containers only)
     longs = [65537, 70001, 2 ** 17 + 1, 100000]
     for j in range(1 if quick else 3):
@@ -1684,6 +2226,14 @@ def run_shard(ctx):
         if ctx.out_of_time():
             ctx.observe('stopped-by-deadline')
             break
+    n_proto = (1600 if quick else 40000) // ctx.nshards + 1
+    for c in range(n_proto):
+        scen = make_proto_scenario(rng)
+        _register(ctx, scen)
+        run_proto_scenario(eqsig, ctx, scen)
+        if ctx.out_of_time():
+            ctx.observe('stopped-by-deadline')
+            break
     ctx.note('monitored_calls', dict(attach.CALLS))
 
 
@@ -1699,6 +2249,8 @@ def replay(w):
         run_object_scenario(eqsig, ctx, w)
     elif kind == 'twin':
         run_twin_scenario(eqsig, ctx, w)
+    elif kind == 'proto':
+        run_proto_scenario(eqsig, ctx, w)
     elif kind == 'peak':
         m = materialise(w['motion'], w.get('container', 'array'))
         with warnings.catch_warnings():
